@@ -266,6 +266,16 @@ def run_property(prop, tier, seed):
             if not mm:
                 undecided.append('bounded stand-in %s produced no summary' % b['name'])
             for fl in fails:
+                # a failing case that is a recorded known finding (identified by stand-in name + a pattern of the failing call and
+                # its wrong answer) is listed as such; any other failing case of the same stand-in is a violation
+                kf = [k for k in known.get('findings', []) if k.get('property') == prop and k.get('bounded_match', {}).get('name') == b['name'] and re.search(k['bounded_match']['regex'], fl)]
+                if kf:
+                    known_hits.append((kf[0], {'obligation': 'replay:bounded:%s' % b['name']}))
+                    continue
+                n_reported = len([1 for (_n, f_) in violations if f_.get('obligation') == 'bounded:%s' % b['name']])
+                if n_reported >= 5:   # the first five failing cases of a stand-in are reported one by one, the rest only counted
+                    bounded_info[-1]['failures_not_listed'] = bounded_info[-1].get('failures_not_listed', 0) + 1
+                    continue
                 violations.append(('bounded', {'obligation': 'bounded:%s' % b['name'], 'kind': 'bounded-check', 'rendered': fl, 'spans': [],
                                                'witness': {'confirmed_on_real_code': True, 'input': fl, 'replay': {'driver': b.get('driver'), 'script': b.get('script'), 'args': b.get('args', [])}}}))
     # ---- syntactic frame conditions (unit hook FRAME): "every function outside the contracted set has no access path to the
